@@ -26,11 +26,11 @@ type handlerInfo struct {
 	ErrResult int // index of the handler's answer among the results (a wrapper may return zero values beside it)
 	// the constructor call stands in ViaCore, an unexported function only the handlers call, which is handed what the
 	// handler knows in a struct (`p.report(u, validationIssue{errorType: t, failure: f})`)
-	ViaCore *ssa.Function
-	DescrIdx  int // -1 if none
-	CauseIdx  int // -1 if none
-	Ctor      *ssa.Function
-	CtorCall  *ssa.Call
+	ViaCore  *ssa.Function
+	DescrIdx int // -1 if none
+	CauseIdx int // -1 if none
+	Ctor     *ssa.Function
+	CtorCall *ssa.Call
 	// the decision (record? return?) may live in a helper shared by the handlers: `return p.report(u, e, failure)`
 	Core                                *ssa.Function
 	CoreCall                            *ssa.Call
